@@ -106,6 +106,12 @@ reg("C17",
     "Text inside noscript/title/plaintext/listing and foreign namesakes is not judged. Known finding: per-token collapsing leaves one space per token when a run is split across tokens (modelled exactly).",
     "DESIGN.md §3 C17")
 
+reg("C06",
+    "model-based + round-trip property-based testing: byte documents from a prescan-oriented grammar x all subsets/values of the five *_encoding arguments; documentEncoding vs. a reference precedence chain + reference WHATWG prescan + late-<meta> model; tree vs. parse(decode(bytes, reported))",
+    "Exploration: generated byte documents (BOMs, declarations in every spelling and context, declarations within +-40 bytes of offset 1024, non-ASCII bodies) x argument subsets over valid/invalid/UTF-16 labels x bytes/BytesIO/non-seekable streams. Three oracles: a certain source is never overridden; the tree equals the tree of the bytes decoded with the reported encoding; the reported encoding equals the reference prediction. Held on everything explored.",
+    "Trusted: webencodings for labels; vf/ref/prescan.py (own transcription of the WHATWG prescan) and the reference tree constructor for the late-meta path. chardet absent. Known findings: html5lib's prescan variant (modelled separately), truncated multi-byte sequence at EOF. Three defects repaired.",
+    "DESIGN.md §3 C06")
+
 NOT_APPLICABLE = {}
 
 
